@@ -10,6 +10,14 @@ class Internal(Exception):
     pass
 
 
+# sites (generic vek bodies) that ask for a type-level constant of one of their type parameters, audited by hand: the constant does not
+# select behaviour there. Any other site makes the root fail closed: only the roots' instantiations are analysed.
+TYPECONST_AUDITED = {
+    'mat::transmute_unchecked': 'debug_assert_eq!(size_of::<S>(), size_of::<D>()): a sanity check of the layout cast, no behaviour selected',
+    '::is_packed': 'returns the comparison size_of::<Self>() == n * size_of::<T>() itself (a layout query)',
+}
+
+
 class Ctx:
     def __init__(self, pid, tier, seed=0, only=None):
         self.pid = pid; self.tier = tier; self.seed = seed; self.only = only
@@ -66,6 +74,12 @@ class Ctx:
             if res is None:
                 raise Internal('driver did not report root %s' % r.name)
             self.visited.setdefault(fk, set()).update(res.d.get('visited', []))
+            for pth in res.d.get('paths', []):
+                for e in pth.get('events', []):
+                    if e[0] == 'note' and e[1].startswith('typeconst|'):
+                        _, what, site = e[1].split('|', 2)
+                        if any(a in site for a in TYPECONST_AUDITED): self.counts['type-level constants at audited sites'] = self.counts.get('type-level constants at audited sites', 0) + 1; continue
+                        self.viol('incomplete/type-dependent/%s' % site, rule='fail closed: a generic vek body asks for a type-level constant of its type parameter (%s); its behaviour may differ between element types and only the instantiations of the roots are analysed' % what, where=site, found='%s in %s (root %s)' % (what, site, r.name), expected='generic code that does not inspect its type parameter, or an audited site (vv/core.py: TYPECONST_AUDITED)')
             self.roots_analysed += 1; self.paths_analysed += len(res.paths); self.steps += res.steps
             if not res.ok and 'undefined behaviour' in res.status:
                 self.viol('ub/%s' % r.name, rule='no undefined behaviour on any explored path (out-of-bounds unchecked access)', where=r.code, found=res.status, expected='in-bounds accesses only')
